@@ -471,13 +471,13 @@ impl Palette {
                 let mut res = String::new();
                 res.push_str("GIMP Palette\n");
 
-                res.push_str(format!("#Palette Name: {}\n", self.title).as_str());
-                res.push_str(format!("#Author: {}\n", self.author).as_str());
-                res.push_str(format!("#Description: {}\n", self.description).as_str());
+                res.push_str(format!("#Palette Name: {}\n", single_line(&self.title)).as_str());
+                res.push_str(format!("#Author: {}\n", single_line(&self.author)).as_str());
+                res.push_str(format!("#Description: {}\n", single_line(&self.description)).as_str());
                 res.push_str(format!("#Colors: {}\n", self.colors.len()).as_str());
 
                 for c in &self.colors {
-                    res.push_str(format!("{:3} {:3} {:3} {}\n", c.r, c.g, c.b, self.description).as_str());
+                    res.push_str(format!("{:3} {:3} {:3} {}\n", c.r, c.g, c.b, single_line(&self.description)).as_str());
                 }
 
                 return res.as_bytes().to_vec();
@@ -487,14 +487,14 @@ impl Palette {
                 let mut res = String::new();
                 res.push_str("ICE Palette\n");
 
-                res.push_str(format!("#Palette Name: {}\n", self.title).as_str());
-                res.push_str(format!("#Author: {}\n", self.author).as_str());
-                res.push_str(format!("#Description: {}\n", self.description).as_str());
+                res.push_str(format!("#Palette Name: {}\n", single_line(&self.title)).as_str());
+                res.push_str(format!("#Author: {}\n", single_line(&self.author)).as_str());
+                res.push_str(format!("#Description: {}\n", single_line(&self.description)).as_str());
                 res.push_str(format!("#Colors: {}\n", self.colors.len()).as_str());
 
                 for c in &self.colors {
                     if let Some(name) = c.name.as_ref() {
-                        res.push_str(format!("#Name: {name}\n").as_str());
+                        res.push_str(format!("#Name: {}\n", single_line(name)).as_str());
                     }
                     res.push_str(format!("{:02x}{:02x}{:02x}\n", c.r, c.g, c.b).as_str());
                 }
@@ -504,9 +504,9 @@ impl Palette {
                 let mut res = String::new();
                 res.push_str(";paint.net Palette File\n");
 
-                res.push_str(format!(";Palette Name: {}\n", self.title).as_str());
-                res.push_str(format!(";Author: {}\n", self.author).as_str());
-                res.push_str(format!(";Description: {}\n", self.description).as_str());
+                res.push_str(format!(";Palette Name: {}\n", single_line(&self.title)).as_str());
+                res.push_str(format!(";Author: {}\n", single_line(&self.author)).as_str());
+                res.push_str(format!(";Description: {}\n", single_line(&self.description)).as_str());
                 res.push_str(format!(";Colors: {}\n", self.colors.len()).as_str());
 
                 for c in &self.colors {
@@ -3994,6 +3994,12 @@ pub const VIEWDATA_PALETTE: [Color; 16] = [
         b: 0xFF,
     }, // white
 ];
+
+/// The text palette formats are line oriented: a line break inside a title, author,
+/// description or color name would be read back as an additional (color) line.
+fn single_line(text: &str) -> String {
+    text.replace(['\r', '\n'], " ")
+}
 
 fn convert_vector(temp2: f32, temp1: f32, mut x: f32) -> u8 {
     if x < 0.0 {
